@@ -131,7 +131,7 @@ type Sess struct {
 type Opt struct {
 	Dir         string
 	CPU         int
-	WaitTimeout time.Duration // 0: 2s
+	WaitTimeout time.Duration // 0: 30s (generous: a lock wait must not expire because the machine is busy)
 	RetryDelay  time.Duration // 0: 1ms
 	CaptureOut  bool          // false: stdout is discarded and SELECT results are only stored
 	Stdin       string
@@ -176,7 +176,7 @@ func NewSess(o Opt) (*Sess, error) {
 	tx.Flags.SetQuiet(true)
 	wt := o.WaitTimeout
 	if wt == 0 {
-		wt = 2 * time.Second
+		wt = 30 * time.Second
 	}
 	rd := o.RetryDelay
 	if rd == 0 {
